@@ -167,26 +167,29 @@ Definition laplacian_dense (sqrtf : Q -> Q) (a : smat) (reg : Q) (norm : bool) :
 (* ------------------------------------------------------------------------------------------- *)
 (** * CoNeighbor (operators.py): every algebraic operation mutates the object and returns it;
       [cn_shape] is the LinearOperator shape fixed by __init__ and never updated. *)
-Record coneighbor := { cn_shape : nat * nat; cn_back : smat; cn_fwd : smat }.
+(** [cn_shared]: with normalized=False, forward = adjacency.T is a view on the data buffer of backward = adjacency,
+    so the in-place scalings of __neg__ / __mul__ (backward *= c) reach both factors, until one of them is replaced. *)
+Record coneighbor := { cn_shape : nat * nat; cn_back : smat; cn_fwd : smat; cn_shared : bool }.
 Definition snorms1 (s : smat) : vec := smv (smap Qabs s) (vones (s_ncol s)).
 Definition snormalize (s : smat) : smat := smul (sdiag_pinv (snorms1 s)) s.
 Definition mk_coneighbor (a : smat) (normalized : bool) : coneighbor :=
   {| cn_shape := (s_nrow a, s_nrow a); cn_back := a;
-     cn_fwd := if normalized then snormalize (stranspose a) else stranspose a |}.
+     cn_fwd := if normalized then snormalize (stranspose a) else stranspose a;
+     cn_shared := negb normalized |}.
 Definition cn_matvec (v : coneighbor) (x : vec) : vec := smv (cn_back v) (smv (cn_fwd v) x).
 Definition cn_matmat (k : nat) (v : coneighbor) (X : mat) : mat := smm k (cn_back v) (smm k (cn_fwd v) X).
-Definition cn_neg (v : coneighbor) : coneighbor :=
-  {| cn_shape := cn_shape v; cn_back := sscale (-(1)) (cn_back v); cn_fwd := cn_fwd v |}.
 Definition cn_mul (c : Q) (v : coneighbor) : coneighbor :=
-  {| cn_shape := cn_shape v; cn_back := sscale c (cn_back v); cn_fwd := cn_fwd v |}.
+  {| cn_shape := cn_shape v; cn_back := sscale c (cn_back v);
+     cn_fwd := if cn_shared v then sscale c (cn_fwd v) else cn_fwd v; cn_shared := cn_shared v |}.
+Definition cn_neg (v : coneighbor) : coneighbor := cn_mul (-(1)) v.
 Definition cn_left (M : smat) (v : coneighbor) : coneighbor :=
-  {| cn_shape := cn_shape v; cn_back := smul M (cn_back v); cn_fwd := cn_fwd v |}.
+  {| cn_shape := cn_shape v; cn_back := smul M (cn_back v); cn_fwd := cn_fwd v; cn_shared := false |}.
 Definition cn_right (v : coneighbor) (M : smat) : coneighbor :=
-  {| cn_shape := cn_shape v; cn_back := cn_back v; cn_fwd := smul (cn_fwd v) M |}.
-(** _transpose: operator = CoNeighbor(self.backward) (shape from backward's rows), then both factors replaced *)
+  {| cn_shape := cn_shape v; cn_back := cn_back v; cn_fwd := smul (cn_fwd v) M; cn_shared := false |}.
+(** _transpose: operator = CoNeighbor(self.backward) (shape from backward's rows), then both factors replaced by copies *)
 Definition cn_transpose (v : coneighbor) : coneighbor :=
   {| cn_shape := (s_nrow (cn_back v), s_nrow (cn_back v));
-     cn_back := stranspose (cn_fwd v); cn_fwd := stranspose (cn_back v) |}.
+     cn_back := stranspose (cn_fwd v); cn_fwd := stranspose (cn_back v); cn_shared := false |}.
 Definition cn_astype (v : coneighbor) : coneighbor := v.
 (** operator.dot(x): LinearOperator's checks against the recorded shape, scipy's check inside forward.dot *)
 Definition cn_dot (v : coneighbor) (x : vec) : res vec :=
@@ -368,6 +371,20 @@ Fixpoint ce_square_factors (e : cn_expr) : Prop :=
   | CLeft M e => ce_square_factors e /\ s_nrow M = s_ncol M
   | CRight e M => ce_square_factors e /\ s_nrow M = s_ncol M
   end.
+(** the two factors still share their data buffer *)
+Fixpoint ce_shared (e : cn_expr) : bool :=
+  match e with
+  | CBase _ nrm => negb nrm
+  | CNeg e | CMul _ e | CAstype e => ce_shared e
+  | CLeft _ _ | CRight _ _ | CT _ => false
+  end.
+(** no negation / scaling while the factors share their buffer *)
+Fixpoint ce_unshared_scaling (e : cn_expr) : Prop :=
+  match e with
+  | CBase _ _ => True
+  | CNeg e | CMul _ e => ce_shared e = false /\ ce_unshared_scaling e
+  | CLeft _ e | CRight e _ | CT e | CAstype e => ce_unshared_scaling e
+  end.
 
 Inductive pl_expr : Type :=
 | PBase (a : smat) (coeffs : list Q)
@@ -472,14 +489,14 @@ Definition op_wf (o : op_expr) : Prop :=
   match o with
   | OSlr e => se_wf e | ONorm e => ne_wf e | OLap e => le_wf e | OCn e => ce_wf e | OPoly e => pe_wf e
   end.
-(** the three defective sites are excluded: a transposed Normalizer, a transposed Laplacian of a
-    non-symmetric adjacency, a CoNeighbor product with a non-square factor *)
+(** the defective sites are excluded: a transposed Normalizer, a transposed Laplacian of a non-symmetric
+    adjacency, a CoNeighbor product with a non-square factor, a CoNeighbor scaling on shared factors *)
 Definition op_sound_site (o : op_expr) : Prop :=
   match o with
   | OSlr _ | OPoly _ => True
   | ONorm e => ne_transposed e = false
   | OLap e => le_sym_or_untransposed e
-  | OCn e => ce_square_factors e
+  | OCn e => ce_square_factors e /\ ce_unshared_scaling e
   end.
 
 (* ------------------------------------------------------------------------------------------- *)
